@@ -226,15 +226,20 @@ func (ctx *cmdContext) infoUnlocked(cs *clientState) string {
 		flags.WriteString("N")
 	}
 
+	// name, selected database and protocol belong to the other connection's goroutine
+	cs.mu.Lock()
+	name, selectedDb, respVersion := cs.name, cs.selectedDb, cs.respVersion
+	cs.mu.Unlock()
+
 	info = append(info,
 		fmt.Sprintf("id=%d", cs.id),
-		"name="+cs.name,
-		fmt.Sprintf("db=%d", cs.selectedDb),
+		"name="+name,
+		fmt.Sprintf("db=%d", selectedDb),
 		fmt.Sprintf("multi=%d", multi),
 		fmt.Sprintf("flags=%s", flags.String()),
 		"cmd="+ctx.cmdToken,
 		"user="+cs.user,
-		fmt.Sprintf("resp=%d", cs.respVersion),
+		fmt.Sprintf("resp=%d", respVersion),
 	)
 
 	var sb strings.Builder
